@@ -160,7 +160,7 @@ Fixpoint put_all (ic : bool) (pairs : list (qname * value)) (d : list (qname * l
   match pairs with
   | [] => Some d
   | (k, v) :: rest =>
-      if (negb ic && is_formal_attr k)%bool then
+      if (negb (ic && is_prov_name "entity" k) && is_formal_attr k)%bool then
         match attr_get k d with
         | e0 :: _ => if py_eq v e0 then put_all ic rest d else None
         | [] => put_all ic rest (attr_add k v d)
@@ -179,7 +179,7 @@ Proof.
     assert (E : add_attrs_loop c ic m d ((n, a) :: l) =
                 match insert_value c m k a with
                 | Done m2 (Some v0) =>
-                    if (negb ic && is_formal_attr k)%bool then
+                    if (negb (ic && is_prov_name "entity" k) && is_formal_attr k)%bool then
                       match attr_get k d with
                       | e0 :: _ => if py_eq v0 e0 then add_attrs_loop c ic m2 d l else (m2, d, LFail EProv)
                       | [] => add_attrs_loop c ic m2 (attr_add k v0 d) l
@@ -191,7 +191,7 @@ Proof.
                 end).
     { destruct a; try (exfalso; apply NN; reflexivity); cbn [add_attrs_loop]; rewrite R; reflexivity. }
     rewrite E, I. clear E.
-    destruct (negb ic && is_formal_attr k)%bool.
+    destruct (negb (ic && is_prov_name "entity" k) && is_formal_attr k)%bool.
     + destruct (attr_get k d) as [|e0 es].
       * apply IH. exact P.
       * destruct (py_eq v e0); [apply IH; exact P | discriminate].
@@ -325,7 +325,7 @@ Lemma add_attr_formal : forall ic a rest v d, fresh_key a d ->
 Proof.
   intros ic a rest v d F. cbn [put_all]. unfold attr_add. rewrite (attr_get_fresh _ _ F).
   unfold set_add. cbn [set_mem existsb app]. rewrite (attr_put_fresh _ _ _ F).
-  destruct (negb ic && is_formal_attr a)%bool; reflexivity.
+  destruct (negb (ic && is_prov_name "entity" a) && is_formal_attr a)%bool; reflexivity.
 Qed.
 
 Definition pairs_of (l : list (qname * list value)) : list (qname * value) :=
